@@ -219,6 +219,16 @@ func (x *Exec) havocLocation(env *specEnv, st *State, a *SpecExpr) {
 		x.havocAll(st)
 		return
 	}
+	if a.Kind == "call" && a.Args[0].Kind == "ident" && a.Args[0].Name == "maps" {
+		mt, ok := x.resolveType(env.pkg, specTypeText(a.Args[1])).Underlying().(*types.Map)
+		if !ok {
+			panic(specFail{"maps() needs a map type"})
+		}
+		mh := x.mapHeap(mt)
+		x.havocHeap(st, mh.has, arraySort(SInt, arraySort(mh.ks, SBool)))
+		x.havocHeap(st, mh.val, arraySort(SInt, arraySort(mh.ks, mh.vs)))
+		return
+	}
 	if a.Kind == "ident" {
 		if v, ok := env.pkg.Types.Scope().Lookup(a.Name).(*types.Var); ok {
 			if _, isBound := env.binds[a.Name]; !isBound {
@@ -293,6 +303,13 @@ func (x *Exec) assignHeaps(c *Contract, a *SpecExpr) (out map[string]Sort, ok bo
 	fi := c.Fn
 	if a.Kind == "ident" && a.Name == "all" {
 		return nil, false
+	}
+	if a.Kind == "call" && a.Args[0].Kind == "ident" && a.Args[0].Name == "maps" {
+		mt := x.resolveType(fi.Pkg, specTypeText(a.Args[1])).Underlying().(*types.Map)
+		mh := x.mapHeap(mt)
+		out[mh.has] = arraySort(SInt, arraySort(mh.ks, SBool))
+		out[mh.val] = arraySort(SInt, arraySort(mh.ks, mh.vs))
+		return out, true
 	}
 	if a.Kind == "field" && a.Args[0].Kind == "ident" {
 		if tn, isT := fi.Pkg.Types.Scope().Lookup(a.Args[0].Name).(*types.TypeName); isT {
@@ -500,7 +517,7 @@ func VerifyFunc(w *World, c *Contract) (res *FuncResult) {
 	x.old = entry
 	// axioms of the contract files (assumed facts, counted in the evidence)
 	for _, l := range w.Lemmas {
-		if !l.Assumed {
+		if !l.Assumed || l.PkgPath != fi.Pkg.PkgPath {
 			continue
 		}
 		func() {
@@ -536,14 +553,48 @@ func VerifyFunc(w *World, c *Contract) (res *FuncResult) {
 	return res
 }
 
+func isRepoType(t types.Type) bool {
+	n, ok := types.Unalias(t).(*types.Named)
+	return ok && isRepoObj(n.Obj())
+}
+
 func (x *Exec) inputFacts(st *State, v Term, t types.Type) {
+	x.inputFactsDepth(st, v, t, 0)
+}
+
+func (x *Exec) inputFactsDepth(st *State, v Term, t types.Type, depth int) {
 	for _, f := range x.typeFacts(v, t) {
 		st.assume(f)
 	}
 	t = x.subst(types.Unalias(t))
-	switch t.Underlying().(type) {
-	case *types.Pointer, *types.Map:
+	if isLogType(t) || isReflectType(t) {
+		return
+	}
+	switch u := t.Underlying().(type) {
+	case *types.Map:
 		st.assume(mk(SBool, "<", v, st.alloc))
+	case *types.Pointer:
+		st.assume(mk(SBool, "<", v, st.alloc))
+		// references reachable from an input were allocated before the call
+		if _, ok := u.Elem().Underlying().(*types.Struct); ok && depth < 2 && !isLogType(u.Elem()) && isRepoType(u.Elem()) {
+			si := x.structOf(u.Elem())
+			for i := range si.Fields {
+				f := &si.Fields[i]
+				switch f.Type.Underlying().(type) {
+				case *types.Pointer, *types.Map, *types.Struct:
+					fv := sel(x.heapGet(st, fieldHeapName(si, f), arraySort(SInt, f.Sort)), v)
+					x.inputFactsDepth(st, fv, f.Type, depth+1)
+				}
+			}
+		}
+	case *types.Struct:
+		// references held in struct values were allocated before the call
+		if depth < 3 {
+			si := x.structOf(t)
+			for i, f := range si.Fields {
+				x.inputFactsDepth(st, x.structField(v, si, i), f.Type, depth+1)
+			}
+		}
 	}
 }
 
@@ -594,8 +645,42 @@ func (x *Exec) checkPost(st *State, fr *frame, pos token.Pos) {
 		return env
 	}
 	for _, e := range c.Ensures {
+		// a field-wise schema yields one obligation per field of the struct
+		if e.Expr.Kind == "call" && e.Expr.Args[0].Kind == "ident" && e.Expr.Args[0].Name == "fieldwise" && len(e.Expr.Args) == 4 {
+			var parts []fieldPart
+			func() {
+				defer func() {
+					if r := recover(); r != nil {
+						if sf, ok := r.(specFail); ok {
+							panic(unsupported(fmt.Sprintf("contract %s:%d: %s", shortFile(e.File), e.Line, sf.msg)))
+						}
+						panic(r)
+					}
+				}()
+				parts = mkEnv().fieldwiseParts(e.Expr.Args[1].Name, e.Expr.Args[2], e.Expr.Args[3])
+			}()
+			for _, p := range parts {
+				conj := splitAnd(p.T)
+				for ci, c := range conj {
+					lbl := e.Label + "." + p.Name
+					if len(conj) > 1 {
+						lbl += fmt.Sprintf(".%c", 'a'+ci)
+					}
+					o := x.emit(st, "ensures", lbl, c, e.Props, "postcondition for field "+p.Name+": "+e.Text, pos)
+					o.ClauseText = e.Text
+				}
+			}
+			continue
+		}
 		g := x.specBool(mkEnv(), e)
 		o := x.emit(st, "ensures", e.Label, g, e.Props, "postcondition: "+e.Text, pos)
+		o.ClauseText = e.Text
+	}
+	for _, e := range c.Returns {
+		env := mkEnv()
+		env.locals = true
+		g := x.specBool(env, e)
+		o := x.emit(st, "returns", e.Label, g, e.Props, "at every return: "+e.Text, pos)
 		o.ClauseText = e.Text
 	}
 	// frame: heaps not covered by the assigns clause are unchanged
@@ -609,6 +694,19 @@ func (x *Exec) checkPost(st *State, fr *frame, pos token.Pos) {
 		o := x.emit(st, "canary", "", tFalse, c.Props, "an injected 'ensures false' must fail (some return is reachable)", pos)
 		o.MustFail = true
 	}
+}
+
+// splitAnd splits a top-level conjunction into its conjuncts.
+func splitAnd(t Term) []Term {
+	if !strings.HasPrefix(t.S, "(and ") {
+		return []Term{t}
+	}
+	parts := splitSexpArgs(t.S)
+	var out []Term
+	for _, p := range parts[1:] {
+		out = append(out, Term{p, SBool})
+	}
+	return out
 }
 
 // checkFrame: every heap array that differs from the entry state must be permitted by assigns.
@@ -652,6 +750,12 @@ func (x *Exec) checkFrame(st *State, pos token.Pos) {
 						return
 					}
 				}
+			}
+			if a.Kind == "call" && a.Args[0].Kind == "ident" && a.Args[0].Name == "maps" {
+				mt := x.resolveType(envOld.pkg, specTypeText(a.Args[1])).Underlying().(*types.Map)
+				mh := x.mapHeap(mt)
+				locs = append(locs, loc{heap: mh.has, whole: true}, loc{heap: mh.val, whole: true})
+				return
 			}
 			if a.Kind == "ident" {
 				if _, isBound := envOld.binds[a.Name]; !isBound {
